@@ -35,6 +35,7 @@ RULE = (
     "SQLite after a failed save with P present: anything but P or N is a violation. Non-trivial = P exists and differs from "
     "N; distinct by (engine, backend, file, syscall/line/offset, kind of P). exhaustive refers to the enumerated points of the "
     "saves performed."
+    ' Previous-checkpoint kinds also include one taken before the first batch and one after which the line-up got a sampler of a new class (the two checkpoints then differ in their id table).'
 )
 ASSUMPTIONS = [
     "byte-prefix model for partially written files; page-level reordering by the OS is not modelled",
